@@ -549,6 +549,13 @@ class Gen:
         self.ops.append({"k": "mat", "t": i, "name": name})
         self.pool.append(sh.copy(mat=True))
 
+    def g_mark(self):
+        i = self.pick(lambda s: not s.pending)
+        if i is None:
+            return
+        self.ops.append({"k": "mark", "t": i})
+        self.pool.append(self.pool[i].copy())
+
     def g_xfer(self):
         i = self.pick()
         if i is None:
